@@ -13,7 +13,7 @@ fn filter(s: Stat) -> bool {
 pub fn plan(tier: Tier) -> Plan {
     let mut checks: Vec<Box<dyn Check>> = Vec::new();
     let q = tier == Tier::Quick;
-    for (a, dq, dt) in [("small", 6, 8), ("dec", 6, 8), ("tail", 6, 9), ("off9", 6, 9), ("negoff", 7, 10), ("two13", 8, 14), ("ap", 6, 9), ("tiny", 5, 7), ("large", 5, 7), ("mixed", 5, 7)] {
+    for (a, dq, dt) in [("small", 6, 8), ("dec", 6, 8), ("tail", 6, 9), ("off9", 6, 9), ("negoff", 7, 10), ("two13", 8, 14), ("ap", 6, 9), ("tiny", 5, 7), ("large", 5, 7), ("mixed", 5, 7), ("tiny20", 5, 7), ("large25", 5, 7)] {
         let d = if q { dq } else { dt };
         checks.push(add_check::<Moments4>("C10", a, d, filter, true));
         checks.push(add_check::<M6>("C10", a, d, filter, true));
